@@ -231,7 +231,7 @@ CHECKS = {
         "parallel": 1,
         "rule": "per key (boundary lengths 32/0/1/12/59/60/61/64/200 then random): up to six caches ({default, JIT} x {ref, SSSE3, AVX2}), a dataset built by the compiled initialiser on 16 threads with odd range boundaries (items around every range boundary and 4000 random items are compared with the light-mode item; thorough: a second dataset by the interpreter initialiser, compared in full), "
                 "and VMs {interpreter, JIT, JIT+SECURE, SECURE without JIT} x {soft, hard AES} x {light on each cache, fast on each dataset}, some with LARGE_PAGES (served by ordinary pages through the interposed mmap), a third created with RANDOMX_FLAG_V2 and switched back with clearFlagV2, the others switched with setFlagV2, a third using first/next/last batches; "
-                "each (key, input, version) digest must be identical across all configurations; then a fast-mode sweep: 64 (thorough 600) further inputs x 2 versions through the eight fast-mode classes {interpreter, JIT, JIT+SECURE, SECURE} x {soft, hard AES} (half of them batched), all equal; "
+                "each (key, input, version) digest must be identical across all configurations; then a fast-mode sweep: 64 (thorough 600) further inputs x 2 versions through the eight fast-mode classes {interpreter, JIT, JIT+SECURE, SECURE} x {soft, hard AES} (half of them batched), all equal - the sweep inputs include the eight committed directed inputs of harness/directed_inputs.hpp whose first program has the dataset-offset field at 0x7FFFF / 0x7FFFE / 0 / 1 (the configurations add that offset in four different places; the light-mode sweep hashes them too); "
                 "then a light-mode JIT sweep: 768 (thorough 6000) further inputs x 2 versions through the light classes {JIT, JIT+SECURE} x {soft, hard AES} on 16 threads (alternating between the default and the JIT cache), each digest compared with one fast-mode VM's digest; "
                 "non-trivial = at least 12 configurations compared (8 in the fast sweep, 2 in the light sweep); distinct by hash of the triple",
         "assumptions": ["agreement says nothing about correctness (C02 ties the common value to the specification)", "large-page VM classes run with ordinary pages (no hugetlb pages in the sandbox)"],
